@@ -40,10 +40,10 @@ PID = 'C16'
 # ----------------------------------------------------------------- budgets
 #            histories  layouts(cycles)  ops-per-gate  graphs models passdata workflows tasks arrays
 COUNTS = {
-    'quick': dict(hist=260, hist_steps=(3, 22), layout_cycles=2, layout_sample=260, flexrad=2,
-                  graphs=150, models=100, passdata=48, workflows=7, tasks=36, arrays=80, xproc=30),
-    'thorough': dict(hist=4200, hist_steps=(3, 40), layout_cycles=3, layout_sample=0, flexrad=4,
-                     graphs=2500, models=1500, passdata=800, workflows=48, tasks=500, arrays=1000, xproc=300),
+    'quick': dict(hist=220, hist_steps=(3, 22), layout_cycles=2, layout_sample=260, flexrad=2,
+                  graphs=150, models=100, passdata=40, workflows=6, tasks=30, arrays=80, xproc=30),
+    'thorough': dict(hist=3000, hist_steps=(3, 40), layout_cycles=3, layout_sample=0, flexrad=4,
+                     graphs=2500, models=1500, passdata=500, workflows=40, tasks=300, arrays=1000, xproc=250),
 }
 WORKERS = min(16, os.cpu_count() or 4)
 if os.environ.get('VERIF_WORKERS'):
@@ -339,6 +339,10 @@ def case_history(arg: tuple[int, int, str]) -> dict[str, Any]:
     from bqskit.ir.gates import CircuitGate
     lj = is_left_justified(c)
     out.cnt('input_layout_left_justified' if lj else 'input_layout_not_left_justified')
+    cyc = [cy for cy, _ in c.operations_with_cycles()]
+    out.cnt('iteration_cycle_monotone' if cyc == sorted(cyc) else 'iteration_not_cycle_monotone')
+    if any(not type(g).__module__.startswith('bqskit') for g in c.gate_set):
+        out.cnt('input_has_user_gate_dill_branch')
     if any(isinstance(g, CircuitGate) for g in c.gate_set):
         out.cnt('input_has_circuitgate')
     if len(set(c.radixes)) > 1:
@@ -346,8 +350,47 @@ def case_history(arg: tuple[int, int, str]) -> dict[str, Any]:
     circuit_checks(out, c, steps, rng, lambda: rtchk.apply_steps(steps))
     out.d['sig'] = core.sig_of(rtchk.circuit_desc(c, 200))
     out.d['nontrivial'] = c.num_operations >= 2
-    if idx < 2:
+    if idx < 1:
         out.d['sample'] = {'history': steps[:12], 'circuit': rtchk.circuit_desc(c, 12)}
+    return out.d
+
+
+def _hist2_build(seed: int, idx: int) -> tuple[Any, dict[str, Any]]:
+    from vlib import history  # another builder's step-wise model (C04/C05)
+    rng = core.rng_for(seed, PID, 12, idx)
+    n = int(rng.choice([1, 2, 3, 4, 5]))
+    radixes = [int(x) for x in rng.choice([2, 2, 2, 3], size=n)]
+    args = dict(
+        num_qudits=n, radixes=radixes, n_calls=int(rng.integers(5, 30)),
+        qudit_edits=bool(rng.random() < 0.4), blocks=bool(rng.random() < 0.8),
+    )
+    c = history.random_edited_circuit(rng, **args)
+    return c, args
+
+
+def case_history2(arg: tuple[int, int]) -> dict[str, Any]:
+    """Same oracles on circuits from vlib/history.py::random_edited_circuit
+    (an independently written history generator), when it is available."""
+    seed, idx = arg
+    out = Out('hist2', seed, idx)
+    warnings.simplefilter('ignore')
+    try:
+        c, args = _hist2_build(seed, idx)
+    except Exception as e:  # noqa - optional source
+        out.cnt('hist2_unavailable')
+        out.cnt('hist2_unavailable:' + type(e).__name__)
+        out.d['nontrivial'] = False
+        return out.d
+    if rtchk.circuit_problems(c):
+        out.cnt('rejected_input:inconsistent_circuit')
+        out.d['nontrivial'] = False
+        return out.d
+    out.cnt('hist2_circuits')
+    out.cnt('input_layout_left_justified' if is_left_justified(c) else 'input_layout_not_left_justified')
+    steps = {'generator': 'vlib.history.random_edited_circuit', 'rng': [seed, 16, 12, idx], 'args': args}
+    circuit_checks(out, c, steps, core.rng_for(seed, PID, 13, idx), lambda: _hist2_build(seed, idx)[0])
+    out.d['sig'] = core.sig_of(rtchk.circuit_desc(c, 200))
+    out.d['nontrivial'] = c.num_operations >= 2
     return out.d
 
 
@@ -479,7 +522,7 @@ def case_gate(arg: tuple[int, int, list[Any]]) -> dict[str, Any]:
             out.bad('become:circuit:' + d[0], diffs=d, deepcopy=True, **desc)
     except Exception as e:  # noqa
         out.exc('copy:circuit:raised', e, **desc)
-    if idx % 29 == 0:
+    if idx == 29:
         out.d['sample'] = {'gate_recipe': recipe, 'name': g.name[:80]}
     return out.d
 
@@ -1507,7 +1550,7 @@ def cross_process(run: core.Run, seed: int, n: int) -> None:
 
 # ==================================================================== main
 GROUPS = {
-    'hist': case_history, 'layout': case_layout, 'gate': case_gate, 'graph': case_graph,
+    'hist': case_history, 'hist2': case_history2, 'layout': case_layout, 'gate': case_gate, 'graph': case_graph,
     'model': case_model, 'passdata': case_passdata, 'array': case_array, 'task': case_task,
 }
 
@@ -1557,7 +1600,7 @@ def _dispatch(a: tuple[str, Any]) -> dict[str, Any]:
 
 def main(tier: str, seed: int, replay: str | None = None) -> int:
     run = core.Run(PID, tier, seed)
-    run.max_samples = 8
+    run.max_samples = 10
     warnings.simplefilter('ignore')
     if replay:
         return do_replay(run, replay)
@@ -1565,6 +1608,7 @@ def main(tier: str, seed: int, replay: str | None = None) -> int:
     rtchk._init_catalogue()
     work: list[tuple[str, Any]] = []
     work += [('hist', (seed, i, tier)) for i in range(K['hist'])]
+    work += [('hist2', (seed, i)) for i in range(K['hist'] // 4)]
     work += [('layout', it) for it in layout_items(seed, tier)]
     work += [('gate', it) for it in gate_items(seed, tier)]
     work += [('graph', (seed, i)) for i in range(K['graphs'])]
@@ -1637,7 +1681,7 @@ def main(tier: str, seed: int, replay: str | None = None) -> int:
             'hash equality is required within one interpreter and against a locally built equal object in the receiving interpreter',
         ],
         extra={
-            'exhaustive': True,
+            'exhaustive': False,
             'exhaustive_subspace': 'all cycle layouts of <=%d cycles on 3 qubits made of 1- and 2-qudit operations (built with a scaffold qudit); '
                                    'every name in bqskit.ir.gates.__all__ that can be constructed' % K['layout_cycles'],
         },
